@@ -72,9 +72,9 @@ impl GenCfg {
     }
 }
 
-pub const FAMILIES: [&str; 18] = [
+pub const FAMILIES: [&str; 19] = [
     "accum", "munch", "lang", "rulesets", "rctx", "eoi", "loc", "actions", "recover", "progress", "realistic",
-    "class", "prec", "bigclass", "mixed", "eoictx", "mixedx", "eoiseq",
+    "class", "prec", "bigclass", "mixed", "eoictx", "mixedx", "eoiseq", "langu",
 ];
 
 pub fn family_cfg(family: &str, rng: &mut Rng) -> GenCfg {
@@ -93,6 +93,29 @@ pub fn family_cfg(family: &str, rng: &mut Rng) -> GenCfg {
             c.rules = (1, 1);
             c.depth = rng.range(2, 5);
             c.w_atom = [8, 3, 6, 3, 1, 2];
+            c.w_act = [0, 1, 1, 0];
+            c.p_continue = 0;
+            c.p_reset = 0;
+            c.p_guarded = 0;
+        }
+        "langu" => {
+            // "lang" over 1-, 2-, 3- and 4-byte characters and a zero-width one, with more string
+            // literals: literal syntax (strings ending or starting in a multi-byte character, strings
+            // under postfix operators, sets and ranges over non-ASCII characters) reaches the automaton
+            // through byte-offset-sensitive code (round 11: a string literal whose LAST character is
+            // multi-byte matched nothing)
+            let pool = ['é', 'あ', '😀', '\u{301}', 'b'];
+            let mut ls = vec!['a'];
+            while ls.len() < 4 {
+                let c = pool[rng.below(pool.len())];
+                if !ls.contains(&c) {
+                    ls.push(c);
+                }
+            }
+            c.letters = ls;
+            c.rules = (1, 1);
+            c.depth = rng.range(2, 4);
+            c.w_atom = [6, 8, 5, 2, 0, 2];
             c.w_act = [0, 1, 1, 0];
             c.p_continue = 0;
             c.p_reset = 0;
